@@ -328,6 +328,23 @@ def host_main(case_path, out_path):
                 if oc == 'raised':
                     st['exc'] = type(r).__name__
                 restarted.clear()
+            elif name == 'runpd':
+                # a poison run abandoned by an exception raised by the worker_callback at the 'died' event of the worker that took the poison
+                nrun[0] += 1
+                base = nrun[0] * 100
+                inputs = [-1] + [base + i for i in range(3)]
+
+                def cb_died(wk, ev, *a):
+                    if ev == 'died':
+                        recorded.add(id(wk))        # the pool itself has announced this death: it is not news to any later run
+                        raise RuntimeError('the caller abandons this run when it hears of a death')
+                oc, r = bounded(lambda: pool.run(iter(inputs), worker_callback=cb_died))
+                st['outcome'] = oc
+                if oc == 'raised':
+                    st['exc'] = type(r).__name__
+                if not closed[0]:       # the pool has reported ('died') every death there is: none of them is news to the next run
+                    recorded.update(id(w['obj']) for w in ws if 'obj' in w and any(o is w['obj'] for o in pool.workers) and not os_alive(w))
+                restarted.clear()
             elif name == 'runint':
                 # run() left through a BaseException raised while it executes: the worker_callback raises KeyboardInterrupt
                 # when the first result arrives (inputs are still pending then)
@@ -485,6 +502,7 @@ _INVS = ['Inv_AllDead', 'Inv_RunIsolated', 'Inv_NoWorkToDead', 'Inv_RestartedGet
 
 
 def _dump_cfg(**kw):
+    kw.setdefault('PDFree', 'FALSE')         # runpd histories are scripted (CURATED additions), not dumped
     c = _mc_cfg(Hist='TRUE', **kw).replace('SPECIFICATION Spec', 'INIT Init\nNEXT Next') + 'INVARIANT PathDump\n'
     for inv in _INVS:
         c = c.replace('INVARIANT ' + inv + '\n', '')
@@ -563,7 +581,7 @@ def _interesting(ops):
     base = [o.partition(':')[0] for o in ops]
     if base[0] not in ('add', 'attach'):
         return False
-    if not any(b in ('run', 'runp', 'runl', 'runabort', 'runint', 'restart', 'restartg', 'close', 'terminate', 'exc', 'closeint', 'termint') for b in base):
+    if not any(b in ('run', 'runp', 'runl', 'runpd', 'runabort', 'runint', 'restart', 'restartg', 'close', 'terminate', 'exc', 'closeint', 'termint') for b in base):
         return False
     # nothing but closing calls after the first close is only interesting once or twice
     return True
@@ -591,6 +609,11 @@ def _select(tier, rng, free4, sim6, remote):
     add('none', ['add:thread', 'add:process', 'add:process', 'runp', 'run', 'close'], retry='F')
     add('none', ['add:process', 'add:process', 'runl', 'run', 'close'], retry='F')
     add('none', ['add:process', 'add:thread', 'run', 'kill:1', 'run', 'run'], retry='F')
+    # a poison run abandoned by an exception the worker_callback raises at the 'died' event; the pool must remember the death
+    add('none', ['add:process', 'runpd', 'add:process', 'run', 'run', 'close'], retry='F')
+    add('none', ['add:process', 'runpd', 'add:thread', 'add:process', 'run', 'close'], retry='F')
+    add('none', ['add:process', 'runpd', 'run', 'add:process', 'run', 'close'])
+    add('none', ['add:thread', 'add:process', 'runp', 'restart', 'kill:2', 'run', 'runpd', 'run'], retry='F')
     add('none', ['add:process', 'add:thread', 'stick:1', 'close'], 'sleep')
     add('none', ['add:thread', 'add:process', 'stick:2', 'exc'], 'sleep')
     add('none', ['add:process', 'add:process', 'stick:1', 'stick:2', 'closeint', 'terminate'], 'sleep')
@@ -699,6 +722,7 @@ def run(prop, tier, replay=None):
         'whatif_staleoverwrite': dict(cfg=_mc_cfg(MaxOps='4', StaleOverwrite='TRUE'), workers=2, expect='invariant:Inv_RunIsolated', label='what-if: the in-flight count of abandoned runs is overwritten, not accumulated (must be rejected)'),
         'whatif_nonetimeout': dict(cfg=_mc_cfg(MaxOps='3', NoneTimeoutRejected='TRUE'), workers=2, expect='invariant:Inv_Configurable', label='what-if: the constructor refuses close_timeout=None (must be rejected)'),
         'whatif_nodeadskip': dict(cfg=_mc_cfg(MaxOps='4', NoDeadSkip='TRUE', Plans='FreeNoRetry'), workers=2, expect='invariant:Inv_RunIsolated', label='what-if: first_enqueue does not skip workers recorded dead, retry off (must be rejected)'),
+        'whatif_lateclosed': dict(cfg=_mc_cfg(MaxOps='4', LateClosed='TRUE', Plans='FreeNoRetry'), workers=2, expect='invariant:Inv_RunIsolated', label="what-if: _closed is updated after the 'died' callback, which raises (must be rejected)"),
         'whatif_norekey': dict(cfg=_mc_cfg(MaxOps='4', NoRekey='TRUE'), workers=2, expect='invariant:Inv_RunIsolated', label='what-if: restart_workers does not re-key (must be rejected)'),
     }
     for w in ('W_ClosedWithStuck', 'W_RestartAfterDeath', 'W_DupRaised', 'W_RunAfterPoison', 'W_ForceFalseSurvivor', 'W_InterruptedStuck', 'W_RunInterrupted', 'W_GentleRestartFails', 'W_LingerAfterFailure', 'W_TwoAbandonedRuns'):
